@@ -42,6 +42,49 @@ class Analysis:
         except K.Unfoldable:
             return default
 
+    def peval(self, func, subst, max_steps=400):
+        """Constant-propagating walk of func's CFG with `subst` (normalised
+        expression text -> value). Returns the folded return value; raises
+        Unfoldable when a branch condition or the result does not fold."""
+        cfg = self.cfg(func)
+        ctx = K.ctx_for(self.repo, func)
+        ctx.subst = dict(subst)
+        env = {}
+        ctx.env = env
+        n = cfg.entry
+        steps = 0
+        while True:
+            steps += 1
+            if steps > max_steps:
+                raise K.Unfoldable('too many steps')
+            if n.is_return:
+                if n.kind == 'implicit-return' or n.ret_expr is None:
+                    return None
+                if n.ret_truth is not None:
+                    return K.fold(n.ret_expr, ctx)
+                return K.fold(n.ret_expr, ctx)
+            if n.kind == 'cond':
+                v = K.fold(n.ast, ctx)
+                want = bool(v)
+                nxt = [m for m, lab in n.succs if lab is want]
+                if not nxt:
+                    raise K.Unfoldable('no %s edge' % want)
+                n = nxt[0]
+                continue
+            if n.kind == 'stmt' and isinstance(n.ast, ast.Assign) \
+                    and len(n.ast.targets) == 1 \
+                    and isinstance(n.ast.targets[0], ast.Name):
+                env[n.ast.targets[0].id] = K.fold(n.ast.value, ctx)
+            elif n.kind in ('stmt',) and isinstance(n.ast, ast.Expr) \
+                    and isinstance(n.ast.value, ast.Constant):
+                pass
+            elif n.kind not in ('entry',):
+                raise K.Unfoldable('statement %s' % n.text())
+            nxt = [m for m, lab in n.succs if lab is None]
+            if not nxt:
+                raise K.Unfoldable('dead end')
+            n = nxt[0]
+
     def run_rule(self, rule_obj):
         run = RuleRun(rule_obj, self)
         rule_obj.fn(run)
